@@ -1,32 +1,15 @@
 //! C10: dijkstra, astar, k_shortest_path on symbolic non-negative weights.
 use petgraph::algo::{astar, dijkstra, k_shortest_path};
 use petgraph::graph::{Graph, NodeIndex};
-use petgraph::visit::EdgeRef;
 use petgraph::{Directed, EdgeType, Undirected};
 use symx::driver::*;
 use symx::engine::{self, assume, check_d, explore, fail, Config, Stats};
+use symx::hosts::*;
 use symx::oracle;
 use symx::spec::*;
 use symx::sym::*;
 use symx::topo::*;
 
-fn build<W: Clone, Ty: EdgeType>(t: &Topo, w: &[W]) -> Graph<(), W, Ty, u32> {
-    let mut g = Graph::<(), W, Ty, u32>::with_capacity(0, 0);
-    for _ in 0..t.n {
-        g.add_node(());
-    }
-    for (i, &(a, b)) in t.edges.iter().enumerate() {
-        g.add_edge(NodeIndex::new(a), NodeIndex::new(b), w[i].clone());
-    }
-    g
-}
-
-fn wnames(t: &Topo) -> Vec<String> {
-    (0..t.m()).map(|i| format!("w{}", i)).collect()
-}
-fn path_sum(p: &[usize], real: bool) -> String {
-    sum(&p.iter().map(|e| format!("w{}", e)).collect::<Vec<_>>(), real)
-}
 fn weights_from_model(t: &Topo, m: &Model) -> Vec<i64> {
     scaled_ints(m, &wnames(t))
 }
@@ -534,8 +517,9 @@ fn selftest() -> Result<String, String> {
     let t = from_mask("T3", 3, 0b010_100_110, true); // 0->1,0->2,1->2,2->1 (bits i*3+j)
     let h = Dij { topo: t.clone(), src: 0, goal: None, real: false };
     let st = h.run(&Config::default());
-    if st.inconclusive.is_some() || st.violation_count != 0 || st.paths < 2 {
-        return Err(format!("dijkstra on a fixed topology: {:?} violations, {} paths, {:?}", st.violation_count, st.paths, st.inconclusive));
+    // (violations found here would be petgraph's, not the machinery's: they are reported by the main run)
+    if st.inconclusive.is_some() || st.paths < 2 {
+        return Err(format!("dijkstra on a fixed topology: {} paths, {:?}", st.paths, st.inconclusive));
     }
     let planted = explore(
         &Config::default(),
